@@ -275,6 +275,29 @@ func c17Worker(args []string) int {
 		rounds, ngor, nops = 120, 64, 600
 	}
 	res := &c17result{OpCounts: map[string]int64{}, Overlap: map[string]int64{}, Rounds: rounds, Goroutines: ngor}
+	// calls made alone before anything else has run in this process, and made
+	// again at the very end: near-miss spellings of what the workload uses
+	// (zone names, keywords and function names in another letter case)
+	probes := []string{
+		"SELECT v FROM m TZ('america/new_york')", "SELECT v FROM m TZ('AMERICA/NEW_YORK')", "SELECT v FROM m TZ('asia/kolkata')", "SELECT v FROM m TZ('utc')", "SELECT v FROM m TZ('europe/berlin')", "SELECT v FROM m TZ('Europe/berlin')",
+		"SELECT MEAN(v), Mean(w), hOLT_wINTERS(x, 1, 2) FROM m", "sElEcT v fRoM m wHeRe tImE > nOw()", "SELECT v FROM m WHERE h =~ /(?i)Cpu.*/", "SHOW tag KEYS with KEY in (A, a)",
+	}
+	probe := func() []string {
+		var out []string
+		for _, t := range probes {
+			q, err := influxql.ParseQuery(t)
+			if err != nil {
+				out = append(out, "ERR "+err.Error())
+			} else {
+				out = append(out, dumpOf(q))
+			}
+		}
+		for _, w := range []string{"Retention", "rETENTION", "dISTINCT", "nOw", "TiMe"} {
+			out = append(out, fmt.Sprint(influxql.Lookup(w), influxql.IdentNeedsQuotes(w), influxql.QuoteIdent(w)))
+		}
+		return out
+	}
+	probe0 := probe()
 	sharedOps := c17SharedOps()
 	nso := len(sharedOps)
 	overlap := make([]int64, nso*nso)
@@ -528,6 +551,17 @@ func c17Worker(args []string) int {
 				res.OpCounts[k] += v
 			}
 		}
+	}
+	for i, p1 := range probe() {
+		if p1 != probe0[i] {
+			nmis++
+			what := "keyword helpers"
+			if i < len(probes) {
+				what = probes[i]
+			}
+			res.Mismatches = append(res.Mismatches, fmt.Sprintf("%s: made alone at process start the call returned %q, at the end of the run %q", what, trunc(probe0[i], 300), trunc(p1, 300)))
+		}
+		res.OpCounts["history-probes"]++
 	}
 	res.NMismatch = nmis
 	for i := 0; i < nso; i++ {
